@@ -6,6 +6,31 @@ HOOK_COMMITS = subprocess.run(["git", "-C", "/repo", "log", "--format=%H", "--gr
 
 # id -> (level, technique, text, note, design_ref)
 CHECKS = {
+ "C01": ("exploration",
+         "deterministic simulation: seeded sequential programs over an adversarial universe, simulated server clock, restart/kill-image faults for the disk engine, refinement against a reference data model after every request",
+         "Every response and the visible state after every request are compared with an executable model of the Bigtable data model, on all three engines, under a drawn clock trajectory and (disk) clean restarts and process-kill images between requests.",
+         "Trusted: the reference model (btmodel.go, written from the statement), the chunk decoder, the transport stub (direct calls + wire round trip).",
+         "DESIGN.md 6/C01"),
+ "C05": ("exploration",
+         "deterministic simulation: seeded tables and filter trees (finite leaf and depth-2 spaces visited by seeded permutation), controlled sampler, refinement against an independent filter evaluator with its own regex matcher",
+         "Filtered reads are compared row by row with an independent evaluator (three-valued: cells / InvalidArgument required / InvalidArgument permitted; admissible sets for the row-sample filter). The 34 leaf cases and 867 depth-2 compositions are consumed completely by the quick tier; deeper trees are sampled.",
+         "Trusted: the evaluator (btfilter.go, btregex.go). Apart from the sampler this property is a pure function of (filter, table); the simulator contributes configuration and the controlled random source.",
+         "DESIGN.md 6/C05"),
+ "C06": ("exploration",
+         "deterministic simulation: seeded baton-passing scheduler over every lock operation and engine access, linearizability of the recorded history per row (porcupine) against the reference model",
+         "2-4 simulated clients issue single-row writes and reads on 1-2 rows; every interleaving is decided by the seeded scheduler; the history is checked for per-row linearizability and failure atomicity, with sum / single-winner invariants for the classic shapes.",
+         "Trusted: cooperative mutexes (same admission rules as sync.RWMutex minus writer preference), the Rows/Storage pass-through, porcupine v1.3.0, the reference model.",
+         "DESIGN.md 6/C06"),
+ "C13": ("exploration",
+         "deterministic simulation: seeded rule lists and prior states under a simulated server clock (unaligned, jumping, stepping back), refinement against the reference model",
+         "ReadModifyWriteRow responses and the rows read back are compared with the model for every request, across engines and clock trajectories including cells in the future of the clock.",
+         "Trusted: the reference model of C13 (btmodel.go rmw).",
+         "DESIGN.md 6/C13"),
+ "C14": ("exploration",
+         "deterministic simulation: seeded admin+data programs over several tables, restart/kill-image faults for the disk engine, refinement against a registry model",
+         "Admin and data requests over 2 parents x 3 table ids are checked against a registry model after every request (NotFound/AlreadyExists where named, all-or-none family modifications, exact DropRowRange), on all engines, with restarts of the disk engine in between.",
+         "Trusted: the registry model (btseq.go).",
+         "DESIGN.md 6/C14"),
  "C19": ("exploration",
          "deterministic simulation: seeded baton-passing scheduler over the lock map's internal steps, cancellation events as faults, invariants at every step",
          "Seeded search over interleavings of 2-4 tasks x 1-3 rounds x 1-2 keys with context cancellations on the real TransientLockMap; mutual exclusion, cancel safety, progress (deadlock/livelock verdicts), bad-unlock panic and emptiness at quiescence are checked in every run. Sampling, not the exhaustive enumeration the quantifier asks for; the number of distinct interleavings is reported.",
